@@ -12,17 +12,38 @@ def Node.f : Node → Facts | .mk f _ _ => f
 def Node.hd : Node → Hd | .mk _ hd _ => hd
 def Node.items : Node → Items | .mk _ _ items => items
 
+/-- the content that `element_encode` hands to the child declarations, compared with the expected one: same
+    keys, same cdata, child values related by `R` -/
+inductive ItemRel (R : J → J → Prop) : Item J → Item J → Prop
+  | cdata (i : Nat) (v : J) : ItemRel R (.cdata i v) (.cdata i v)
+  | child (nm : String) (s : Bool) (v v' : J) : R v v' → ItemRel R (.child nm s v) (.child nm s v')
+
+inductive ItemsRel (R : J → J → Prop) : List (Item J) → List (Item J) → Prop
+  | nil : ItemsRel R [] []
+  | cons {a b : Item J} {l l' : List (Item J)} : ItemRel R a b → ItemsRel R l l' → ItemsRel R (a :: l) (b :: l')
+
+theorem ItemsRel.refl_eq : ∀ l : List (Item J), ItemsRel Eq l l
+  | [] => .nil
+  | .cdata i v :: l => .cons (.cdata i v) (ItemsRel.refl_eq l)
+  | .child nm s v :: l => .cons (.child nm s v v rfl) (ItemsRel.refl_eq l)
+
 /-- One-level contract of a converter.
     `WFin` : admissible inputs of `element_decode`, a condition on the element's own data and on the shape
              of its content (not on the converted children);
     `Inv`  : what every converted value looks like (by element name);
-    `norm1`: the documented normalisation of one level (polymorphic in the child values). -/
+    `norm1`: the documented normalisation of one level (polymorphic in the child values);
+    `R`    : how the value of a child that `element_encode` returns may differ from the value that
+             `element_decode` was given (`Eq` for JsonML; a DataElement child comes back with its tail set,
+             dataobjects.py:549) — `element_encode` of the child must not see the difference (`encR`). -/
 structure LevelOK (c : Conv) (Inv : String → J → Prop)
     (WFin : Facts → Hd → List (Item Unit) → Prop)
-    (norm1 : {α : Type} → Facts → Hd → List (Item α) → Hd × List (Item α)) : Prop where
+    (norm1 : {α : Type} → Facts → Hd → List (Item α) → Hd × List (Item α))
+    (R : J → J → Prop) : Prop where
   rt : ∀ f hd (its : List (Item J)), WFin f hd (shape its) →
       (∀ nm s v, Item.child nm s v ∈ its → Inv nm v) →
-      c.enc f hd.tag (c.dec f hd its) = .ok (norm1 f hd its)
+      ∃ its', c.enc f hd.tag (c.dec f hd its) = .ok ((norm1 f hd its).1, its') ∧
+        ItemsRel R (norm1 f hd its).2 its'
+  encR : ∀ f nm v v', R v v' → c.enc f nm v' = c.enc f nm v
   inv : ∀ f hd (its : List (Item J)), WFin f hd (shape its) →
       (∀ nm s v, Item.child nm s v ∈ its → Inv nm v) → Inv hd.tag (c.dec f hd its)
   natural : ∀ {α β} (g : α → β) f hd (its : List (Item α)),
@@ -78,30 +99,48 @@ theorem shape_mapIt {α β} (g : α → β) (l : List (Item α)) : shape (mapIt 
   | cons a l ih =>
     cases a <;> simp_all [shape, mapIt, Item.map]
 
+theorem encTree_congr (c : Conv) (sch : Nat → Option Facts) (fuel : Nat) (f : Facts) (nm : String) (v v' : J)
+    (h : c.enc f nm v' = c.enc f nm v) : encTree c sch fuel f nm v' = encTree c sch fuel f nm v := by
+  cases fuel with
+  | zero => rfl
+  | succ k => simp only [encTree, h]
+
 /-- encoding the children of one level, given that each child round-trips -/
 theorem encItems_ok (c : Conv) (sch : Nat → Option Facts) (norm1 : {α : Type} → Facts → Hd → List (Item α) → Hd × List (Item α))
-    (rec : Facts → String → J → Except Err Node) (f : Facts) :
-    ∀ (l : List (Item Node)),
+    (rec : Facts → String → J → Except Err Node) (f : Facts) (R : J → J → Prop) :
+    ∀ (l : List (Item Node)) (its' : List (Item J)), ItemsRel R (mapIt (decTree c) l) its' →
       (∀ nm s n, Item.child nm s n ∈ l →
         ∃ ch, findChild f nm = some ch ∧ sch ch.ty = some n.f ∧
-          rec n.f nm (decTree c n) = .ok (normTree norm1 n)) →
-      encItems sch rec f (mapIt (decTree c) l) = .ok (Items.ofList (mapIt (normTree norm1) l)) := by
+          ∀ v', R (decTree c n) v' → rec n.f nm v' = .ok (normTree norm1 n)) →
+      encItems sch rec f its' = .ok (Items.ofList (mapIt (normTree norm1) l)) := by
   intro l
   induction l with
-  | nil => intro _; rfl
+  | nil =>
+    intro its' hrel _
+    simp only [mapIt, List.map_nil] at hrel
+    cases hrel
+    rfl
   | cons a l ih =>
-    intro h
-    have ih' := ih (fun nm s n hm => h nm s n (by simp [hm]))
-    cases a with
-    | cdata i v =>
-      simp only [mapIt, List.map_cons, Item.map, encItems] at ih' ⊢
-      rw [ih']
-      rfl
-    | child nm s n =>
-      obtain ⟨ch, h1, h2, h3⟩ := h nm s n (by simp)
-      simp only [mapIt, List.map_cons, Item.map, encItems, h1, h2, h3] at ih' ⊢
-      rw [ih']
-      rfl
+    intro its' hrel h
+    simp only [mapIt, List.map_cons] at hrel
+    cases hrel with
+    | cons hab hrest =>
+      have ih' := ih _ hrest (fun nm s n hm => h nm s n (by simp [hm]))
+      cases a with
+      | cdata i v =>
+        simp only [Item.map] at hab
+        cases hab
+        simp only [mapIt, List.map_cons, Item.map, encItems] at ih' ⊢
+        rw [ih']
+        rfl
+      | child nm s n =>
+        simp only [Item.map] at hab
+        cases hab with
+        | child _ _ _ v' hr =>
+          obtain ⟨ch, h1, h2, h3⟩ := h nm s n (by simp)
+          simp only [mapIt, List.map_cons, Item.map, encItems, h1, h2, h3 v' hr] at ih' ⊢
+          rw [ih']
+          rfl
 
 theorem mem_mapIt_child {α β} (g : α → β) (l : List (Item α)) (nm : String) (s : Bool) (v : β)
     (h : Item.child nm s v ∈ mapIt g l) : ∃ a, Item.child nm s a ∈ l ∧ v = g a := by
@@ -121,8 +160,8 @@ theorem mem_mapIt_child {α β} (g : α → β) (l : List (Item α)) (nm : Strin
 
 section
 variable (c : Conv) {Inv : String → J → Prop} {WFin : Facts → Hd → List (Item Unit) → Prop}
-  {norm1 : {α : Type} → Facts → Hd → List (Item α) → Hd × List (Item α)}
-  (L : LevelOK c Inv WFin norm1) (sch : Nat → Option Facts)
+  {norm1 : {α : Type} → Facts → Hd → List (Item α) → Hd × List (Item α)} {R : J → J → Prop}
+  (L : LevelOK c Inv WFin norm1 R) (sch : Nat → Option Facts)
 include L
 
 mutual
@@ -142,16 +181,21 @@ theorem tree_rt : ∀ (n : Node), TreeWF WFin sch n → ∀ fuel, n.depth ≤ fu
       obtain ⟨n, hn, rfl⟩ := mem_mapIt_child _ _ _ _ _ hm
       exact (hI nm s n hn).2.2.2
     refine ⟨?_, ?_⟩
-    · simp only [Node.f, Node.hd, decTree, encTree]
-      rw [L.rt f hd _ hin' hinv, hdec, L.natural]
+    · obtain ⟨its', henc, hrel⟩ := L.rt f hd _ hin' hinv
+      simp only [Node.f, Node.hd, decTree, encTree]
+      rw [henc]
+      rw [hdec, L.natural] at hrel ⊢
       simp only [bind, Except.bind]
-      rw [encItems_ok c sch norm1 (encTree c sch fuel') f]
+      rw [encItems_ok c sch norm1 (encTree c sch fuel') f R _ its' hrel]
       · simp only [pure, Except.pure, normTree]
         rw [normItems_eq, L.natural]
       · intro nm s n hm
         obtain ⟨s', hs'⟩ := L.children f hd _ nm s n hm
         obtain ⟨_, ⟨ch, h1, h2⟩, h3, _⟩ := hI nm s' n hs'
-        exact ⟨ch, h1, h2, h3⟩
+        refine ⟨ch, h1, h2, ?_⟩
+        intro v' hr
+        rw [encTree_congr c sch fuel' n.f nm _ v' (L.encR n.f nm _ v' hr)]
+        exact h3
     · simp only [Node.hd, decTree]
       exact L.inv f hd _ hin' hinv
 theorem items_rt : ∀ (items : Items) (f : Facts), ItemsWF WFin sch f items → ∀ fuel, items.depth ≤ fuel →
